@@ -5,7 +5,9 @@
 //!   pqmc worker <ID> <quick|thorough>   the exploration itself
 //!   pqmc replay <file>                  re-executes one recorded case without the explorer
 
+mod c15;
 mod crash;
+mod e3;
 mod explore;
 mod ops;
 mod post;
@@ -53,7 +55,13 @@ fn parse_tier(a: Option<&String>) -> Tier {
 fn worker(prop: &str, tier: Tier) -> i32 {
     crash::install(true);
     let t0 = Instant::now();
-    let out = props::run_property(prop, tier);
+    let out = match std::panic::catch_unwind(|| props::run_property(prop, tier)) {
+        Ok(o) => o,
+        Err(_) => {
+            eprintln!("worker: harness panic: {}", crash::last_panic());
+            return 3;
+        }
+    };
     let stdout = std::io::stdout();
     let mut l = stdout.lock();
     for v in &out.violations {
